@@ -1,5 +1,5 @@
 #!/usr/bin/env python3
-"""usage: gen_tasks.py <round-dir e.g. /tmp/r4> [--focus]  -- writes TASK-<Cnn>.md for the seeding sub-agents.
+"""usage: gen_tasks.py <round-dir e.g. /tmp/r4> [--focus|--focus2..--focus8]  -- writes TASK-<Cnn>.md for the seeding sub-agents.
 The task text contains only the property (statement, quantifier, anchors), the work rules and one-line summaries of
 changes produced in earlier rounds (so that new ones differ); nothing about the checks in /verif."""
 import glob
@@ -132,6 +132,10 @@ wrap the run in `timeout`. The library in this tree is built with -O0 and with a
 4. Leave the worktree **with your change reverted and rebuilt**, and only `_seed/` added. Do not commit.
 5. Reply with a short summary: the change, what it needs to manifest, and the observed results.
 
+If, while reading, you notice that the **unchanged** tree already violates the property in some situation, do not use that as
+your seed: finish your own seed, and report the observation separately at the end of your reply and under an `existing_defect`
+key in `meta.json` (what fails, the exact input / build options / schedule, and a reproducer file in `_seed/` if you have one).
+
 If after a serious attempt you cannot find a change meeting all of 1-5 with a working demonstration, say so plainly and
 describe the best candidate and what is missing; do not fake a demonstration.
 '''
@@ -174,6 +178,15 @@ def main():
              "twins, nonblocking / _safe / iteration variants, splice / pop_all / for_each helpers, auxiliary entry points (count, resize, destroy with "
              "attributes, explicit helper management, thread exit, poll-state handles), and masks, shifts, flag bits, sign / width conversions or "
              "off-by-one bounds in the words those functions encode - NOT another reordering of two statements on the main fast path")
+        table = dict((k, g) for k in FOCUS)
+    if "--focus8" in sys.argv:
+        use_focus = True
+        g = ("something whose effect depends on how the library or its *caller* is compiled, configured or run rather than on the algorithm as "
+             "written: compiler-visible contracts (inline-asm constraints and clobbers, volatile / atomic qualifiers, attributes, evaluation of macro "
+             "arguments, the _LGPL_SOURCE inline twins compiled into an optimised caller), the alternative paths this build can take at run time "
+             "(sys_membarrier or sys_futex unavailable, the compat futex, real-time helpers, a CPU count that changes or cannot be read, "
+             "environment-selected defaults), or an interaction with process-level events (fork in a multi-threaded process, thread exit order, "
+             "library destructors, signals arriving inside the library) - still within the property, still invisible to the test suite")
         table = dict((k, g) for k in FOCUS)
     props = {json.loads(l)["id"]: json.loads(l) for l in open(os.path.join(V, "properties.jsonl"))}
     prev = {}
